@@ -164,3 +164,63 @@ Definition run_api (cfg : pycfg) (fuel : nat) (a : api) (script : list tok) : py
     if session_allow_bulk (pc_version cfg) (pc_allow_bulk cfg) then walk_bulk_api cfg fuel oid None script
     else walk_next_api cfg fuel oid script
   end.
+
+(* ---------------------------------------------------------------- programs: several objects on one session --------- *)
+(* Iterators are separate objects, each with its own buffer; single calls and next() calls on any of them may interleave
+   on one session, an iterator may be used again after it raised, or be abandoned half-way.  The script is what the
+   session's socket methods return, in call order. *)
+Inductive cmd :=
+| CCall (a : api)          (* get / get_many *)
+| CNew (a : api)           (* getnext / getbulk / fetch: the iterator gets the next free number *)
+| CNext (i : nat).         (* next() / __anext__() on iterator i *)
+
+Record iter_st := { it_bulk : bool; it_buf : list (option Z) }.
+
+Definition next_of (cfg : pycfg) (bulk : bool) :=
+  match pc_mode cfg, bulk with
+  | Sync, true => sync_bulk_next | Sync, false => sync_next_next
+  | Async, true => async_bulk_next | Async, false => async_next_next
+  end (pc_policer cfg).
+
+Fixpoint set_nth {A} (l : list A) (i : nat) (x : A) : list A :=
+  match l, i with
+  | [], _ => []
+  | _ :: r, O => x :: r
+  | y :: r, S k => y :: set_nth r k x
+  end.
+
+Definition new_iter (cfg : pycfg) (a : api) : option (ev * iter_st) :=
+  match a with
+  | ApiGetNext oid => Some (EvIter oid None, {| it_bulk := false; it_buf := [] |})
+  | ApiGetBulk oid req => Some (EvIter oid (Some (effective_max_rep req (pc_max_rep cfg))), {| it_bulk := true; it_buf := [] |})
+  | ApiFetch oid =>
+    if session_allow_bulk (pc_version cfg) (pc_allow_bulk cfg)
+    then Some (EvIter oid (Some (effective_max_rep None (pc_max_rep cfg))), {| it_bulk := true; it_buf := [] |})
+    else Some (EvIter oid None, {| it_bulk := false; it_buf := [] |})
+  | _ => None
+  end.
+
+Fixpoint run_prog (cfg : pycfg) (p : list cmd) (its : list iter_st) (script : list tok) (evs : list ev) (outs : list pyout)
+  : list ev * list pyout * list tok :=
+  match p with
+  | [] => (evs, rev outs, script)
+  | CCall a :: r =>
+    match a with
+    | ApiGet _ | ApiGetMany _ =>
+      let res := run_api cfg 0 a script in
+      run_prog cfg r its (r_rest res) (evs ++ r_events res) (r_end res :: outs)
+    | _ => (evs, rev (PBadScript :: outs), script)
+    end
+  | CNew a :: r =>
+    match new_iter cfg a with
+    | Some (e, st) => run_prog cfg r (its ++ [st]) script (evs ++ [e]) (PRet (SvObj 0) :: outs)
+    | None => (evs, rev (PBadScript :: outs), script)
+    end
+  | CNext i :: r =>
+    match nth_error its i with
+    | None => (evs, rev (PBadScript :: outs), script)
+    | Some st =>
+      let '(e, o, buf', script') := next_of cfg (it_bulk st) (it_buf st) script in
+      run_prog cfg r (set_nth its i {| it_bulk := it_bulk st; it_buf := buf' |}) script' (evs ++ e) (o :: outs)
+    end
+  end.
